@@ -290,6 +290,8 @@ type samGenOpts struct {
 	allowNoise    bool
 	iupacRef      bool
 	slashNames    bool
+	fixedRef      string // if set: use this reference (annotation properties)
+	fixedRefName  string
 }
 
 func genRef(t *rapid.T, minLen, maxLen int, iupac bool) string {
@@ -540,7 +542,11 @@ func genNoiseRecord(t *rapid.T, name string, ref string) SamRec {
 
 func genSamInput(t *rapid.T, o samGenOpts) SamInput {
 	in := SamInput{RefName: rapid.SampledFrom([]string{"ref", "MN908947.3", "chr1"}).Draw(t, "refName")}
-	in.Ref = genRef(t, 6, o.maxRef, o.iupacRef)
+	if o.fixedRef != "" {
+		in.Ref, in.RefName = o.fixedRef, o.fixedRefName
+	} else {
+		in.Ref = genRef(t, 6, o.maxRef, o.iupacRef)
+	}
 	nq := rapid.IntRange(1, o.maxQueries).Draw(t, "nQueries")
 	var names []string
 	for qi := 0; qi < nq; qi++ {
